@@ -271,8 +271,11 @@ where
 
 /// Creates a new output in the wallet for the recipient,
 /// returning the key of the fresh output
-/// Also creates a new transaction containing the output
-pub fn build_recipient_output<'a, T: ?Sized, C, K>(
+/// Also creates a new transaction containing the output.
+/// `sign` adds this wallet's signature data to the slate (and checks the other
+/// party's): it runs before anything is written, so that a slate it refuses
+/// leaves no output and no log entry behind.
+pub fn build_recipient_output<'a, T: ?Sized, C, K, F>(
 	wallet: &mut T,
 	keychain_mask: Option<&SecretKey>,
 	slate: &mut Slate,
@@ -280,11 +283,13 @@ pub fn build_recipient_output<'a, T: ?Sized, C, K>(
 	parent_key_id: Identifier,
 	use_test_rng: bool,
 	is_initiator: bool,
+	sign: F,
 ) -> Result<(Identifier, Context, TxLogEntry), Error>
 where
 	T: WalletBackend<'a, C, K>,
 	C: NodeClient + 'a,
 	K: Keychain + 'a,
+	F: FnOnce(&mut Slate, &mut Context) -> Result<(), Error>,
 {
 	// Create a potential output for this transaction
 	let key_id = keys::next_available_key(wallet, keychain_mask)?;
@@ -306,6 +311,14 @@ where
 	context.add_output(&key_id, &None, amount);
 	context.amount = amount;
 	context.fee = slate.fee_fields.as_opt();
+	// (the excess an invoice's issuer can record at this point: not a valid one yet)
+	let excess_before_signing = slate.calc_excess(keychain.secp()).ok();
+	sign(slate, &mut context)?;
+	let kernel_excess = if is_initiator {
+		excess_before_signing
+	} else {
+		Some(slate.calc_excess(keychain.secp())?)
+	};
 	let commit = wallet.calc_commit_for_cache(keychain_mask, amount, &key_id_inner)?;
 	let mut batch = wallet.batch(keychain_mask)?;
 	let log_id = batch.next_tx_log_id(&parent_key_id)?;
@@ -318,9 +331,7 @@ where
 		n => Some(n),
 	};
 	// when invoicing, this will be invalid
-	if let Ok(e) = slate.calc_excess(keychain.secp()) {
-		t.kernel_excess = Some(e)
-	}
+	t.kernel_excess = kernel_excess;
 	t.kernel_lookup_min_height = Some(current_height);
 	batch.save(OutputData {
 		root_key_id: parent_key_id.clone(),
